@@ -41,6 +41,12 @@ CLAIMS = {
     "C13": dict(cat="model_checking", design="5/C13", technique="TLA+ spec AkdConcurrent (local and remote lagging readers, poller, faults) + TLC (AnswersArePublished); lagging second instances and gate-scheduled overlapping requests on the real code, every answer verified by akd's verifiers and validated by TLC (TraceDirectory, results as of the answered epoch)",
         text="TLC checks that every reader answer is an error or names a really published (epoch, root) pair assembled only from node versions as of that epoch, over all interleavings of publishers, local readers, a remote reader lagging 0-2 epochs, the poller and one fault, and refutes the pinned unchecked-previous-version switch; on the real code a second cached instance is read after storage moved on by 1-3 epochs (with the real change poller run at different points) and lookups / histories / audits / epoch hashes overlap one or two publishes under TLC-exported and bounded-preemption schedules; TLC validates each verified answer against the specification's state as of the answered epoch, and monotonicity after a notification.",
         note=BASE_NOTE + " Interleavings are explored at storage-operation granularity on a single-threaded runtime."),
+    "C06": dict(cat="model_checking", design="5/C06", technique="TLA+ spec AkdProofGame (lookup verifier at leaf-set abstraction) + TLC (LookupOnlyLatest on all honest states); adversarial lookup proofs assembled from real material (every claim of the grid, shallow-anchor absences, mixed labels, old epochs) verified by akd's lookup_verify; verdicts validated by TLC (TraceDirectory)",
+        text="TLC proves that on every reachable honest leaf set only the latest (value, version, epoch) of a label satisfies the lookup verifier's conditions; after every step of sampled TLC-generated histories an adversarial server holding the key assembles lookup proofs for every claim of versions 1..latest+1 x values x epochs, serves superseded versions with absence proofs anchored at every ancestor, swaps sub-proofs with another label's, uses wrong markers, versions beyond the epoch and proofs of earlier epochs; TLC requires the real verdict to equal the specification's and every accepted claim to be the latest one."),
+    "C07": dict(cat="model_checking", design="5/C07", technique="TLA+ spec AkdProofGame (history verifier at leaf-set abstraction, AkdMarkers) + TLC (HistoryOnlyTruth over all claim lists, parameters and modes); adversarial history proofs from real material verified by akd's key_history_verify, incl. trees with missing/late stale markers; verdicts validated by TLC",
+        text="TLC proves HistoryOnlyTruth on every reachable honest state for every list of consecutive versions with any values and epochs, every parameter and both verification modes (one exemption, recorded as known finding, whose un-exempted form TLC refutes); the adversarial server replays truncations (with shallow-anchor absences of hidden versions), removals, duplicates, swaps, altered values and epochs, tombstone substitutions, invented versions and short/long marker lists after every step of sampled histories and on trees that retire a version late or never; the real verdict must equal the specification's."),
+    "C08": dict(cat="model_checking", design="5/C08", technique="TLA+ spec AkdMarkers (get_marker_versions transcribed) + TLC: shape and history/history agreement for all (E, n), export of the lookup/history gap set; real get_marker_versions validated triple by triple (TraceMarkers); dishonest trees built with the real Azks, all candidate proofs verified by akd's verifiers and validated by TLC; cross-proof agreement judged against the exported gap set",
+        text="TLC checks the marker algebra exhaustively up to the bound (history proofs ending at different versions always contradict each other; n+1 is always a future marker) and exports exactly the (epoch, n, m) triples where a lookup for m > n touches no future marker of n - the known finding; the real get_marker_versions equals the transcription on all triples up to the bound; on dishonest trees with extra fresh versions every history range and lookup is built from real material, TLC validates each real verdict, and any two accepted proofs with different latest versions are a VIOLATION unless they are a (complete history, lookup) pair inside the exported gap set (printed as KNOWN-FINDING)."),
 }
 
 def main():
